@@ -106,6 +106,7 @@ class CTLWorld(object):
     self.sim = sim
     self.cfg = cfg or {}
     self.events = []        # (source 'nexus'|con_id, event name, con_id, info)
+    self.nexus_events = []  # (1|2: which nexus, event name, con_id)
     self.delivered = {}     # con_id -> [(type, xid, packed_len)]
     self.cons = {}          # con_id -> Connection
     self.peers = []
@@ -224,7 +225,7 @@ class CTLWorld(object):
             "TableStatsReceived", "PortStatsReceived", "QueueStatsReceived",
             "FlowRemoved", "FeaturesReceived", "ConfigurationReceived")
 
-  def _mk(self, src, name):
+  def _mk(self, src, name, which=1):
     world = self
 
     def h(event):
@@ -232,8 +233,49 @@ class CTLWorld(object):
       cid = con.ID if con is not None else None
       info = world.info_of(name, event)
       world.events.append((src, name, cid, info))
+      if src == "nexus":
+        world.nexus_events.append((which, name, cid))
       world.sim.ev("event", src, name, cid)
     return h
+
+  nexus2 = None
+  routed = frozenset()
+
+  def add_second_nexus(self, dpids):
+    """a second OpenFlowNexus, and an arbiter listener that hands it the
+    datapaths in `dpids` (pox's documented way of splitting switches among
+    nexuses); its events are recorded like the first one's"""
+    import pox.openflow as OF
+    n2 = OF.OpenFlowNexus()
+    self.nexus2 = n2
+    self.routed = frozenset(dpids)
+    for name in self.EVENTS + ("ConnectionHandshakeComplete",):
+      cls = getattr(OF, name)
+      if cls in n2._eventMixin_events:
+        n2.addListener(cls, self._mk("nexus", name, which=2), priority=-1000)
+
+    def route(event):
+      if event.dpid in self.routed:
+        event.nexus = n2
+    self.core.OpenFlowConnectionArbiter.addListenerByName("ConnectionIn",
+                                                          route)
+    self.sim.probes["second_nexus"] += 1
+
+  def nexus_for(self, dpid):
+    return self.nexus2 if dpid in self.routed else self.nexus
+
+  def registry(self):
+    """dpid -> connection over both nexuses (a dpid held by the wrong one,
+    or by both, is reported as a string)"""
+    out = {}
+    for which, nx in ((1, self.nexus), (2, self.nexus2)):
+      if nx is None:
+        continue
+      for d in nx.connections.dpids:
+        if d in out or (which == 2) != (d in self.routed):
+          return "dpid %#x is held by nexus %d" % (d, which)
+        out[d] = nx.connections[d]
+    return out
 
   def info_of(self, name, event):
     if name == "PortStatus":
